@@ -298,6 +298,9 @@ func genHistPair(r *Rng, withValue bool) HistPair {
 
 func genPollPattern(r *Rng) []string {
 	n := pick(r, []int{0, 0, 1, 2, 3, 6})
+	if r.Chance(0.004) {
+		n = pick(r, []int{101, 150, 260})
+	}
 	out := make([]string, n)
 	for i := range out {
 		if r.Bool() {
